@@ -175,6 +175,9 @@ def check_dot(ctx, prop, exporter_kind, lib, nodes, idmap, names, par, ch, s, st
     if exporter_kind == "dot":
         ex = DotExporter(nodes[s], **kw)
     elif exporter_kind == "unique":
+        if ch[s] and (s + len(stop)) % 2 == 0:
+            ctx.count("%s.other_exporter_numbered_subtree_before" % prop)
+            list(UniqueDotExporter(nodes[ch[s][-1]]))
         ex = UniqueDotExporter(nodes[s], **kw)
     else:
         with warnings.catch_warnings():
@@ -449,6 +452,8 @@ def check_mermaid(ctx, prop, lib, nodes, idmap, names, par, ch, s, stop, hidden,
         ctx.count("%s.to_file" % prop)
         path = os.path.join(to_file_dir, "m-%d.md" % os.getpid())
         lines_now = list(ex)
+        with open(path, "w", encoding="utf-8") as fh:
+            fh.write("stale line of an earlier, longer export\n" * 400)  # the target exists already and is longer
         ex.to_file(path)
         with open(path, encoding="utf-8") as fh:
             text = fh.read()
@@ -511,6 +516,8 @@ def check_dotfile(ctx, prop, lib, node, workdir, cfg):
     ctx.count("%s.to_dotfile" % prop)
     ex = DotExporter(node)
     path = os.path.join(workdir, "d-%d.dot" % os.getpid())
+    with open(path, "w", encoding="utf-8") as fh:
+        fh.write("stale line of an earlier, longer export\n" * 400)
     ex.to_dotfile(path)
     with open(path, encoding="utf-8") as fh:
         text = fh.read()
